@@ -13,7 +13,7 @@ EXTENDS Integers, Sequences, FiniteSets, TLC, Json, SequencesExt
 
 CONSTANTS LeafKinds, Depth, OutFile, Seed, WsPerTree, Sample, Muts, Suffix
 
-Level(T) == CASE T.op = "LEAF" -> 9 [] T.op = "OR" -> 1 [] T.op = "AND" -> 2 [] T.op = "NOT" -> 3
+Level(T) == CASE T.op \in {"LEAF","FGROUP"} -> 9 [] T.op = "OR" -> 1 [] T.op = "AND" -> 2 [] T.op = "NOT" -> 3
               [] T.op = "BOOST" -> 4 [] T.op = "FUZZY" -> 5 [] T.op = "MUST_NOT" -> 6 [] T.op = "MUST" -> 7
 
 \* ---- abstract trees -------------------------------------------------------------------------
@@ -21,9 +21,16 @@ Lf(k) == [op |-> "LEAF", k |-> k]
 Un(o, a) == [op |-> o, a |-> a]
 Sx(o, a, p) == [op |-> o, a |-> a, p |-> p]
 Bi(o, a, b) == [op |-> o, a |-> a, b |-> b]
-T0 == {Lf(k) : k \in LeafKinds}
-\* Suffix = FALSE leaves out ~ and ^ (the SQL renderers reject them by design)
+\* "FGROUP" among the leaf kinds switches on the field group  w:( E )  as one more unary operator
+T0 == {Lf(k) : k \in LeafKinds \ {"FGROUP"}}
+\* a single term in the group is the parenthesised field value (FieldVal) and an OR chain of plain values is a value list:
+\* the group holds any other tree
+GroupOk(a) == a.op \notin {"LEAF","OR"}
+\* Suffix = FALSE leaves out ~ and ^ (the SQL renderers reject them by design).
+\* (The group term is a UNION on purpose: with a subset expression {x \in S : GroupOk(x)} anywhere in this definition TLC no
+\* longer evaluates the constant AllTrees once but again at every use, which made the generator fifty times slower.)
 Grow(S) == S \cup {Un(o, a) : o \in {"NOT","MUST","MUST_NOT"}, a \in S}
+             \cup (IF "FGROUP" \in LeafKinds THEN UNION {IF GroupOk(a) THEN {Un("FGROUP", a)} ELSE {} : a \in S} ELSE {})
              \cup (IF Suffix THEN {Sx("FUZZY", a, p) : a \in S, p \in {"none","int","zint"}} ELSE {})
              \cup (IF Suffix THEN {Sx("BOOST", a, p) : a \in S, p \in {"none","int","float"}} ELSE {})
              \cup {Bi(o, a, b) : o \in {"AND","OR"}, a \in S, b \in S}
@@ -161,6 +168,10 @@ P(T, pos, path, J, R) ==
              juxt == juxtWanted /\ IsTermTok(l.toks[Len(l.toks)]) /\ IsTermTok(r.toks[1])
          IN Out(l.toks \o (IF juxt THEN <<>> ELSE <<Sy(T.op)>>) \o r.toks,
                 [op |-> T.op, l |-> l.tree, r |-> r.tree], r.pos)
+    [] T.op = "FGROUP" ->
+         LET f == Tk("word", pos)
+             a == Wrap(T.a, pos + 1, Append(path, "a"), J, R, R)
+         IN Out(<<f, Sy("COLON"), LP>> \o a.toks \o <<RP>>, [op |-> "EQUALS", l |-> RCol(f), r |-> a.tree], a.pos)
     [] T.op \in {"NOT","MUST","MUST_NOT"} ->
          LET a == Wrap(T.a, pos, Append(path, "a"), J, R, R \/ Level(T.a) < Level(T))
          IN Out(<<Sy(Sym(T.op))>> \o a.toks, [op |-> T.op, l |-> a.tree], a.pos)
@@ -235,12 +246,14 @@ CasesOf(T, n) ==
 \* seeded random trees for depths whose full set is too large to enumerate
 RECURSIVE RandTree(_)
 RandTree(d) ==
-  IF d = 0 \/ RandomElement(1..5) = 1 THEN Lf(RandomElement(LeafKinds))
-  ELSE LET o == RandomElement(IF Suffix THEN {"AND","AND2","OR","OR2","NOT","MUST","MUST_NOT","FUZZY","BOOST"}
-                                        ELSE {"AND","AND2","OR","OR2","NOT","MUST","MUST_NOT"}) IN
+  IF d = 0 \/ RandomElement(1..5) = 1 THEN Lf(RandomElement(LeafKinds \ {"FGROUP"}))
+  ELSE LET o == RandomElement((IF Suffix THEN {"AND","AND2","OR","OR2","NOT","MUST","MUST_NOT","FUZZY","BOOST"}
+                                         ELSE {"AND","AND2","OR","OR2","NOT","MUST","MUST_NOT"})
+                              \cup (IF "FGROUP" \in LeafKinds THEN {"FGROUP"} ELSE {})) IN
        CASE o \in {"AND","OR","AND2","OR2"} -> Bi(IF o \in {"AND","AND2"} THEN "AND" ELSE "OR", RandTree(d - 1), RandTree(d - 1))
          [] o = "FUZZY" -> Sx(o, RandTree(d - 1), RandomElement({"none","int","zint"}))
          [] o = "BOOST" -> Sx(o, RandTree(d - 1), RandomElement({"none","int","float"}))
+         [] o = "FGROUP" -> LET a == RandTree(d - 1) IN IF GroupOk(a) THEN Un(o, a) ELSE a
          [] OTHER -> Un(o, RandTree(d - 1))
 AllTrees == IF Sample = 0 THEN TreesTo(Depth) ELSE {}
 Chosen == IF Sample = 0 THEN SetToSeq(AllTrees) ELSE [i \in 1..Sample |-> RandTree(Depth)]
